@@ -402,10 +402,141 @@ prime_field_machine!(m_scjq255s, crrl::jq255s::Scalar, "ScalarJq255s", 4, mul_sm
 prime_field_machine!(m_scgls254, crrl::gls254::Scalar, "ScalarGls254", 4, mul_small = false, w64 = false, sqrt = true, extras = modint);
 prime_field_machine!(m_sc448, crrl::ed448::Scalar, "Scalar448", 7, mul_small = true, w64 = true, sqrt = true, extras = gfgen7);
 
+/// Point operations that only some of the curves have.
+macro_rules! pex {
+    (@small $name:expr, $p:expr, $t:expr, $rng:expr, $out:expr) => {{
+        let n = word($t, $rng);
+        let mut r = $p;
+        if $t.chance(1, 2) {
+            r.set_mul_small(n);
+            $out.ev(format_args!("{} mul_small({:#x})", $name, n));
+        } else {
+            let ctl = if $t.chance(1, 2) { 0xFFFF_FFFFu32 } else { 0 };
+            r.set_condneg(ctl);
+            $out.ev(format_args!("{} condneg({:#x})", $name, ctl));
+        }
+        r
+    }};
+    (grp, $name:expr, $p:expr, $q:expr, $s:expr, $u:expr, $t:expr, $rng:expr, $out:expr) => {{
+        let ctl = if $t.chance(1, 2) { 0xFFFF_FFFFu32 } else { 0 };
+        let mut r = $p;
+        r.set_condneg(ctl);
+        r
+    }};
+    (ed25519, $name:expr, $p:expr, $q:expr, $s:expr, $u:expr, $t:expr, $rng:expr, $out:expr) => {{
+        match $t.usize(3) {
+            0 => {
+                let (a, b) = ($p.has_low_order(), $p.is_in_subgroup());
+                status!($out, concat!($name, ".has_low_order"), a);
+                status!($out, concat!($name, ".is_in_subgroup"), b);
+                $out.ev(format_args!("{} low_order {:#x} in_subgroup {:#x}", $name, a, b));
+                $p
+            }
+            1 => {
+                let (n, d) = $p.to_montgomery_u_projective();
+                $out.ev(format_args!("{} montgomery u {} projective ratio {}", $name, hex(&$p.to_montgomery_u().encode()), hex(&(n / d).encode())));
+                $p
+            }
+            _ => pex!(@small $name, $p, $t, $rng, $out),
+        }
+    }};
+    (ed448, $name:expr, $p:expr, $q:expr, $s:expr, $u:expr, $t:expr, $rng:expr, $out:expr) => {{
+        match $t.usize(3) {
+            0 => {
+                let (a, b) = ($p.has_low_order(), $p.is_in_subgroup());
+                status!($out, concat!($name, ".has_low_order"), a);
+                status!($out, concat!($name, ".is_in_subgroup"), b);
+                $out.ev(format_args!("{} low_order {:#x} in_subgroup {:#x}", $name, a, b));
+                $p
+            }
+            1 => {
+                $out.ev(format_args!("{} montgomery u {}", $name, hex(&$p.to_montgomery_u().encode())));
+                $p
+            }
+            _ => pex!(@small $name, $p, $t, $rng, $out),
+        }
+    }};
+    (p256, $name:expr, $p:expr, $q:expr, $s:expr, $u:expr, $t:expr, $rng:expr, $out:expr) => {{
+        match $t.usize(3) {
+            0 => {
+                let (x, y, st) = $p.to_affine();
+                status!($out, concat!($name, ".to_affine"), st);
+                let back = Point::from_affine(x, y);
+                let off = Point::from_affine(x, y + crrl::field::GFp256::ONE);
+                $out.ev(format_args!("{} to_affine {:#x} {} {} ; from_affine -> {:?} ; off-curve -> {:?}", $name, st, hex(&x.encode()), hex(&y.encode()),
+                    back.map(|z| hex(&z.encode_compressed())), off.map(|z| hex(&z.encode_compressed()))));
+                $p
+            }
+            1 => {
+                // x-only sequences (the machinery behind truncated verification), public data
+                let (x0, x1, xq) = Point::to_x_affine_diff($p, $q);
+                let n = $t.usize(7);
+                let mut xx = vec![crrl::field::GFp256::ZERO; n];
+                let (xn, xn1) = Point::x_sequence_vartime(x0, x1, xq, &mut xx);
+                $out.ev(format_args!("{} x_sequence x0 {} x1 {} xq {} -> [{}] then {} {}", $name, hex(&x0.encode()), hex(&x1.encode()), hex(&xq.encode()),
+                    xx.iter().map(|z| hex(&z.encode())).collect::<Vec<_>>().join(","), hex(&xn.encode()), hex(&xn1.encode())));
+                $p
+            }
+            _ => pex!(@small $name, $p, $t, $rng, $out),
+        }
+    }};
+    (sec, $name:expr, $p:expr, $q:expr, $s:expr, $u:expr, $t:expr, $rng:expr, $out:expr) => {{
+        match $t.usize(2) {
+            0 => {
+                let (x, y, st) = $p.to_affine();
+                status!($out, concat!($name, ".to_affine"), st);
+                let back = Point::from_affine(x, y);
+                $out.ev(format_args!("{} to_affine {:#x} {} {} ; from_affine -> {:?}", $name, st, hex(&x.encode()), hex(&y.encode()), back.map(|z| hex(&z.encode_compressed()))));
+                $p
+            }
+            _ => pex!(@small $name, $p, $t, $rng, $out),
+        }
+    }};
+    (jq, $name:expr, $p:expr, $q:expr, $s:expr, $u:expr, $t:expr, $rng:expr, $out:expr) => {{
+        match $t.usize(2) {
+            0 => {
+                let k = ((word($t, $rng) as u128) << 64) | word($t, $rng) as u128;
+                $out.ev(format_args!("{} mul128_add_mulgen_vartime({:#x})", $name, k));
+                $p.mul128_add_mulgen_vartime(k, &$s)
+            }
+            _ => pex!(@small $name, $p, $t, $rng, $out),
+        }
+    }};
+    (gls, $name:expr, $p:expr, $q:expr, $s:expr, $u:expr, $t:expr, $rng:expr, $out:expr) => {{
+        match $t.usize(4) {
+            0 => {
+                let neg = if $t.chance(1, 2) { 0xFFFF_FFFFu32 } else { 0 };
+                $p.zeta(neg)
+            }
+            1 => {
+                let (u0, u1) = (word($t, $rng), word($t, $rng));
+                $out.ev(format_args!("{} mul64mu_add_mulgen_vartime({:#x}, {:#x})", $name, u0, u1));
+                $p.mul64mu_add_mulgen_vartime(u0, u1, &$s)
+            }
+            2 => {
+                // which valid split is returned is the backend's business; that it is valid (and odd) is not
+                let odd = $t.chance(1, 2);
+                let (n0, s0, n1, s1) = if odd { Point::split_mu_odd(&$s) } else { Point::split_mu(&$s) };
+                status!($out, concat!($name, ".split_mu.sign0"), s0);
+                status!($out, concat!($name, ".split_mu.sign1"), s1);
+                let mut k0 = Scalar::from_u128(n0);
+                let mut k1 = Scalar::from_u128(n1);
+                if s0 != 0 { k0 = -k0; }
+                if s1 != 0 { k1 = -k1; }
+                let valid = (k0 + k1 * Scalar::MU).equals($s);
+                let small = (n0 >> 127) == 0 || odd;
+                $out.ev(format_args!("{} split_mu(odd={}) valid {:#x} small {} oddness {} {}", $name, odd, valid, small, if odd { n0 & 1 } else { 1 }, if odd { n1 & 1 } else { 1 }));
+                $p
+            }
+            _ => pex!(@small $name, $p, $t, $rng, $out),
+        }
+    }};
+}
+
 /// Group machines: add / sub / double / neg / mul / mulgen / encode / decode
 /// / equals / isneutral / double-scalar multiplication.
 macro_rules! point_machine {
-    ($fname:ident, $m:ident, $name:expr, $enc:ident, $declen:expr, $slen:expr) => {
+    ($fname:ident, $m:ident, $name:expr, $enc:ident, $declen:expr, $slen:expr, $pk:tt) => {
         fn $fname(t: &mut Tape, rng: &mut SimRng, out: &mut RunOut, nops: usize) {
             use crrl::$m::{Point, Scalar};
             let mut pts: Vec<Point> = vec![Point::NEUTRAL, Point::BASE];
@@ -437,8 +568,9 @@ macro_rules! point_machine {
                 let q = pts[t.usize(pts.len())];
                 let s = scs[t.usize(scs.len())];
                 let u = scs[t.usize(scs.len())];
-                let op = t.usize(12);
+                let op = t.usize(15);
                 let r: Point = match op {
+                    12..=14 => pex!($pk, $name, p, q, s, u, t, rng, out),
                     0 => p + q,
                     1 => p - q,
                     2 => p.double(),
@@ -486,15 +618,15 @@ macro_rules! point_machine {
     };
 }
 
-point_machine!(p_ed25519, ed25519, "ed25519.Point", encode, 32, 32);
-point_machine!(p_ed448, ed448, "ed448.Point", encode, 57, 56);
-point_machine!(p_p256, p256, "p256.Point", encode_compressed, 33, 32);
-point_machine!(p_secp256k1, secp256k1, "secp256k1.Point", encode_compressed, 33, 32);
-point_machine!(p_jq255e, jq255e, "jq255e.Point", encode, 32, 32);
-point_machine!(p_jq255s, jq255s, "jq255s.Point", encode, 32, 32);
-point_machine!(p_gls254, gls254, "gls254.Point", encode, 32, 32);
-point_machine!(p_ristretto255, ristretto255, "ristretto255.Point", encode, 32, 32);
-point_machine!(p_decaf448, decaf448, "decaf448.Point", encode, 56, 56);
+point_machine!(p_ed25519, ed25519, "ed25519.Point", encode, 32, 32, ed25519);
+point_machine!(p_ed448, ed448, "ed448.Point", encode, 57, 56, ed448);
+point_machine!(p_p256, p256, "p256.Point", encode_compressed, 33, 32, p256);
+point_machine!(p_secp256k1, secp256k1, "secp256k1.Point", encode_compressed, 33, 32, sec);
+point_machine!(p_jq255e, jq255e, "jq255e.Point", encode, 32, 32, jq);
+point_machine!(p_jq255s, jq255s, "jq255s.Point", encode, 32, 32, jq);
+point_machine!(p_gls254, gls254, "gls254.Point", encode, 32, 32, gls);
+point_machine!(p_ristretto255, ristretto255, "ristretto255.Point", encode, 32, 32, grp);
+point_machine!(p_decaf448, decaf448, "decaf448.Point", encode, 56, 56, grp);
 
 /// Binary fields GF(2^127) and GF(2^254).
 fn m_gfb(t: &mut Tape, rng: &mut SimRng, out: &mut RunOut, nops: usize) {
